@@ -298,6 +298,36 @@ def _edep_nodes_case(el_name, iso):
     return None
 
 
+def _first_touch_case(case, tier, seed):
+    """ground (concrete, fresh interpreters): a neutron result does not depend on it being the first neutron calculation
+    of the process, whichever kind of atom or entry point comes first"""
+    import periodictable as pt
+    from periodictable import nsf
+    res = dict(paths=1, claims=0, discharged=0, queries=0, distinct=0, violations=[], inconclusive=[], samples=[], solver_s=0.0, complete=True)
+    exprs = ['nsf.neutron_scattering("Cm[248]2O3@5", wavelength=2.0)', 'nsf.neutron_scattering("Ni[58]{2+}O{2-}@6", wavelength=2.0)',
+             'nsf.neutron_scattering(pt.Cm[248], wavelength=2.0)', 'pt.H[2].neutron.scattering(wavelength=2.0)', 'pt.Ni[58].neutron.scattering(wavelength=2.0)',
+             'nsf.neutron_scattering(pt.Gd[157], wavelength=2.0)', 'nsf.neutron_scattering("Fe{3+}2O{2-}3@5", wavelength=2.0)']
+    pre = "import json\nimport periodictable as pt\nfrom periodictable import nsf\ndef flat(r):\n    return [float(x) for x in list(r[0]) + list(r[1]) + [r[2]]]\n"
+
+    def flat(r):
+        return [float(x) for x in list(r[0]) + list(r[1]) + [r[2]]]
+    want = [flat(eval(e)) for e in exprs]
+    for i, e in enumerate(exprs):
+        code = pre + "first = flat(%s)\nprint(json.dumps([first, [%s]]))\n" % (e, ', '.join('flat(%s)' % x for x in exprs))
+        got = cm.fresh_interpreter(code)
+        res['claims'] += 1
+
+        def close(g, w):
+            return len(g) == len(w) and all(abs(x - y) <= 1e-12 * max(1.0, abs(y)) for x, y in zip(g, w))
+        if isinstance(got, list) and close(got[0], want[i]) and all(close(g, w) for g, w in zip(got[1], want)):
+            res['discharged'] += 1
+        else:
+            res['violations'].append(dict(case=case.name, claim='first_calculation[%s]' % e, values={}, observed=[repr(got)[:300], repr(want[i])[:200]], how='fresh interpreter'))
+    res['queries'] = res['distinct'] = res['claims']
+    res['samples'] = [dict(first_calculations=exprs)]
+    return res
+
+
 def cases(tier):
     out = []
     combos_quick = [(('X', 'Y'), 'density', 'wavelength'), (('Xi', 'D', 'Y'), 'natural_density', 'wavelength'),
@@ -328,4 +358,5 @@ def cases(tier):
     for el, iso in ed:
         out.append(Case('energy_dependent[%s%s]' % (el, '' if iso is None else '-%d' % iso), _edep_case(el, iso),
                         max_paths=2048, timeout_ms=30000, nsamples=3))
+    out.append(Case('first_calculation_ground', None, custom=_first_touch_case))
     return out
